@@ -11,6 +11,7 @@
 -/
 import CppUtil.Proofs.EpochSeq
 import CppUtil.Gen.Thread
+import CppUtil.Props.EpochListsThm
 import CppUtil.Props.EpochProtoThm
 
 namespace CppUtil.Props
